@@ -2444,3 +2444,115 @@ func init() {
 	addDoc("C20", "R20i (= C13 R13a) result-cache key completeness and error handling. R20j (= C12 R12b) pooled nodes are blank.")
 	addDoc("C13", "R13a ext.: the id interned for a new encoding is injective in it or a fresh UUID.")
 }
+
+// ---------------------------------------------------------------- only held nodes are released (C12)
+
+// releaseArgNotLinked: every node a reader releases is one it holds by name — a holder field (target, candidate, a stack
+// entry's node), the parameter of its Release method, or a node it has just received — and the holder is cleared. A node
+// reached by navigating the tree from another node (n.Parent, n.FirstChild, ...) may at the same time be referenced by
+// another holder (the stack entry of the group that is still being read, the cursor): releasing it leaves that holder
+// pointing at a pooled node (seed C12-11 released the emptied parent group of a rejected record).
+func releaseArgNotLinked(c *core.Ctx, rule string) {
+	c.SSA()
+	idr := c.Pkg("idr")
+	if idr == nil {
+		c.Unresolved(rule, "package idr", "not loaded")
+		return
+	}
+	nodeObj, _ := idr.Types.Scope().Lookup("Node").(*types.TypeName)
+	removeFn := c.Func("idr", "RemoveAndReleaseTree")
+	if nodeObj == nil || removeFn == nil {
+		c.Unresolved(rule, "idr.Node / RemoveAndReleaseTree", "not found")
+		return
+	}
+	nodeStruct, _ := nodeObj.Type().Underlying().(*types.Struct)
+	isLinkLoad := func(v ssa.Value) (string, bool) {
+		u, ok := v.(*ssa.UnOp)
+		if !ok || u.Op != token.MUL {
+			return "", false
+		}
+		fa, ok := u.X.(*ssa.FieldAddr)
+		if !ok {
+			return "", false
+		}
+		fv := core.FieldOfAddr(fa)
+		for i := 0; i < nodeStruct.NumFields(); i++ {
+			if nodeStruct.Field(i) == fv {
+				if p, ok := fv.Type().(*types.Pointer); ok && types.Identical(p.Elem(), nodeObj.Type()) {
+					return fv.Name(), true
+				}
+			}
+		}
+		return "", false
+	}
+	n := 0
+	for _, f := range c.RepoFunctions() {
+		if core.IsCLIOrSample(core.FuncPkg(f)) {
+			continue
+		}
+		if core.FuncPkg(f) == idr.Types && f.Signature.Recv() == nil {
+			continue // the tree primitives themselves (RemoveAndReleaseTree / recycle walk the links by design)
+		}
+		for _, ci := range core.Calls(f) {
+			if ci.Common().StaticCallee() != removeFn || len(ci.Common().Args) != 1 {
+				continue
+			}
+			n++
+			key := core.FuncKey(f) + " releases a node it holds by name"
+			via := ""
+			seen := map[ssa.Value]bool{}
+			var walk func(v ssa.Value, d int)
+			walk = func(v ssa.Value, d int) {
+				if v == nil || seen[v] || via != "" || d > 10 {
+					return
+				}
+				seen[v] = true
+				if name, ok := isLinkLoad(v); ok {
+					via = name
+					return
+				}
+				switch x := v.(type) {
+				case *ssa.Phi:
+					for _, e := range x.Edges {
+						walk(e, d+1)
+					}
+				case *ssa.UnOp:
+					if x.Op == token.MUL {
+						if a, ok := x.X.(*ssa.Alloc); ok {
+							for _, r := range core.Referrers(a) {
+								if st, ok := r.(*ssa.Store); ok && st.Addr == a {
+									walk(st.Val, d+1)
+								}
+							}
+						}
+					}
+				case *ssa.ChangeType:
+					walk(x.X, d+1)
+				}
+			}
+			walk(ci.Common().Args[0], 0)
+			c.Check(via == "", rule, key, core.InstrPos(ci), "the released node is a holder's node, a parameter or a freshly received node",
+				"the released node was reached through the "+via+" link of another node: a holder elsewhere (the stack entry of the enclosing group, the cursor) may still reference it and would then point at a pooled node")
+		}
+	}
+	c.Floor(rule, 10, "release calls of the readers")
+	_ = n
+}
+
+func init() {
+	wrapRun("C12", func(c *core.Ctx) {
+		if c.CountRule("R12j") == 0 {
+			releaseArgNotLinked(c, "R12j")
+		}
+	})
+	addDoc("C12", "R12j no RemoveAndReleaseTree argument derives from a load of a Node link field (only nodes held by name are released).")
+	wrapRun("C03", func(c *core.Ctx) {
+		// K20 (= C11 R11d): the finite model check of the navigator's movement methods also establishes that no movement
+		// dereferences a nil link (seed C03-13: MoveToFirst through Parent.FirstChild on a parentless record node)
+		if c.CountRule("K20") == 0 {
+			importRules(c, "C11", map[string]string{"R11d": "K20"})
+			c.Floor("K20", 6, "navigator movement methods")
+		}
+	})
+	addDoc("C03", "K20 (= C11 R11d) navigator movement methods: finite model check incl. nil links.")
+}
